@@ -56,7 +56,7 @@ impl FileState
         FileState
         {
             ticket : TicketFactory::new().result(),
-            timestamp : 0,
+            timestamp : u64::MAX,
             executable : false,
         }
     }
